@@ -2,6 +2,7 @@ package syntax
 
 import (
 	"fmt"
+	"runtime/debug"
 	"sort"
 	"strings"
 	"testing"
@@ -315,6 +316,10 @@ func hasNonNominalInstantiation(v any) bool {
 // knownC38 returns the id of the known finding whose predicate the program matches ("" if none).
 func knownC38(rec *evid.Rec, j1 any, msg, printed string) string {
 	switch {
+	case rec.Known("FS23") && strings.Contains(msg, "restricted types have been removed") && (strings.Contains(printed, "< fun") || strings.Contains(printed, "< view fun")):
+		// FS23: `a < fun () {}` (less-than with a function expression without return type): the parser's speculative
+		// type-argument parse reports a restricted-type error for `fun () {}` instead of backtracking
+		return "FS23"
 	case rec.Known("FS20") && hasContinuationLine(printed):
 		// FS20: the printer separates statements/conditions by newlines only; a statement that starts with a token that is
 		// also a binary operator (`-x`, `*x`, `/storage/p`, `<-x`, `&x`) is then parsed as continuation of the previous line
@@ -495,7 +500,7 @@ func TestC38(t *testing.T) {
 		knownFS13 = true
 		rec.ReportKnown("FS13", m != "")
 	}
-	for id, repro := range map[string]string{"FS10": "let x = (attach A() to a) / x", "FS11": "let x = (destroy r) + 1", "FS12": "let x: fun(Int) = y", "FS14": "let a = 2 .a", "FS15": "let a: &(&T) = a", "FS16": "entitlement mapping N {}", "FS17": "fun a() { x = (); () }", "FS18": "let x = (-5)[0]", "FS20": "fun f() { pre { a; -b } }", "FS21": "let a = (<-x) as T", "FS22": "let a: (fun(): R)<T> = x"} {
+	for id, repro := range map[string]string{"FS10": "let x = (attach A() to a) / x", "FS11": "let x = (destroy r) + 1", "FS12": "let x: fun(Int) = y", "FS14": "let a = 2 .a", "FS15": "let a: &(&T) = a", "FS16": "entitlement mapping N {}", "FS17": "fun a() { x = (); () }", "FS18": "let x = (-5)[0]", "FS20": "fun f() { pre { a; -b } }", "FS21": "let a = (<-x) as T", "FS22": "let a: (fun(): R)<T> = x", "FS23": "let x = a < fun () {}"} {
 		if rec.Known(id) {
 			m, _ := roundTrip([]byte(repro), false)
 			rec.ReportKnown(id, m != "")
@@ -506,13 +511,15 @@ func TestC38(t *testing.T) {
 	cfg.NestedTemplateStrings = false // C37's FS1: such programs do not parse
 	g := srcgen.New(r, cfg)
 	kinds := map[string]int{}
-	N := evid.N(20_000, 200_000)
+	// (json.Marshal of the AST re-compacts every nested MarshalJSON result, ~5 ms per program: quick counts are sized for that)
+	defer debug.SetGCPercent(debug.SetGCPercent(400))
+	N := evid.N(7_000, 60_000)
 	report := func(class string, src []byte, notes []string, msg string) {
 		cls := msgClass(msg)
 		small := shrinkStructured(src, func(b []byte) bool {
 			m, inf := roundTrip(b, knownFS9)
 			return m != "" && msgClass(m) == cls && knownC38(rec, inf.j1, m, inf.printed) == ""
-		}, 20000)
+		}, 4000)
 		if m, _ := roundTrip(small, knownFS9); m != "" {
 			src, msg = small, m
 		}
@@ -585,7 +592,7 @@ func TestC38(t *testing.T) {
 	}
 	// repository test snippets (each once per run, a deterministic slice per shard)
 	corpus := harvest()
-	per := evid.N(4000, len(corpus))
+	per := evid.N(2000, len(corpus))
 	start := 0
 	if len(corpus) > per {
 		start = r.Intn(len(corpus) - per)
